@@ -256,6 +256,9 @@ structure Cfg where
   auth : Str → Str → Str
   /-- the cookie jar's `Cookie` text for the i-th `add_cookie_header` call, made for that URL -/
   jar : Nat → UrlC → Option Str
+  /-- verdict of the caller's URL filters (`_should_fetch_reason` in `_process_loop`) for the next
+  request, given how many requests the visit has sent; `fun _ => true` for a bare WebSession -/
+  accept : Nat → Bool := fun _ => true
 
 structure Sess where
   /-- `_original_request` -/
@@ -389,6 +392,8 @@ def run (cfg : Cfg) (adv : List Req → Reply) : Nat → Sess → List Req → N
     match s.cur with
     | none => ⟨sent, last, fu, ar, if s.stopped then .skipped else .done⟩
     | some r =>
+      if !cfg.accept sent.length then ⟨sent, last, fu, ar, .skipped⟩   -- `item_session.skip(); break`
+      else
       let r2 := sendPrep cfg s r
       match toBytes r2 with
       | .error e => ⟨sent, last, fu, ar, .error e⟩
@@ -467,14 +472,17 @@ def applyCheckIn (rec : Rec) (c : CheckIn) : Rec :=
 def offered (rec : Rec) : Bool := rec.status = .todo || rec.status = .error
 
 /-- All visits of ONE url against a scripted server whose script is consumed across the
-visits (used by the end-to-end correspondence): per visit the number of requests and the record after it. -/
-def crawlOne (tries : Nat) (cfg : Cfg) (r : Req) : Nat → List Reply → Rec → List (Nat × Rec)
-  | 0, _, _ => []
-  | f + 1, script, rec =>
+visits (used by the end-to-end correspondence): per visit the number of requests and the record
+after it.  `rej` lists the global request counts at which the URL filters refused the next
+request of a running visit (logged from the real run); `base` = requests sent by earlier visits. -/
+def crawlOne (tries : Nat) (cfg : Cfg) (r : Req) : Nat → List Reply → Rec → List Nat → Nat → List (Nat × Rec)
+  | 0, _, _, _, _ => []
+  | f + 1, script, rec, rej, base =>
     if !offered rec then []
     else
-      let (sent, cis) := visit tries true cfg (scriptAdv script) r rec
+      let cfg' := { cfg with accept := fun k => !(rej.contains (base + k)) || k == 0 }
+      let (sent, cis) := visit tries true cfg' (scriptAdv script) r rec
       let rec' := cis.foldl applyCheckIn rec
-      (sent.length, rec') :: crawlOne tries cfg r f (script.drop sent.length) rec'
+      (sent.length, rec') :: crawlOne tries cfg r f (script.drop sent.length) rec' rej (base + sent.length)
 
 end Wpull.Request
